@@ -44,7 +44,7 @@ def run(tier, seed):
     # bookkeeping of the non-x86 back ends (and the amd64 long entry) in simulation: the guard restores exactly
     # the range that was overwritten, with the bytes that were there before
     from props import _sim
-    _sim.run_sim(r, "c02sim", seed, tier, ["linux", "macos"] if tier == "thorough" else ["linux"], ["dev", "release"] if tier == "thorough" else ["dev"], nshards=6, crosscheck=False)
+    _sim.run_sim(r, "c02sim", seed, tier, ["linux", "macos"], ["dev", "release"] if tier == "thorough" else ["dev"], nshards=6, crosscheck=False)
     return r.finish({"scenario": "hist", "mon": "c02", "n": 40000 if tier == "quick" else 16 * 150000, "batch": 1})
 
 
